@@ -40,3 +40,14 @@ Definition err_payload (v : val) : val := match v with VE p => p | _ => v end.
 Record verdict := { v_corr : bool; v_prop : bool; v_class : string; v_model : val }.
 Definition mkv c p cl m := {| v_corr := c; v_prop := p; v_class := cl; v_model := m |}.
 Definition bad_case : verdict := mkv false false "bad-case"%string VNil.
+
+(* the model asks the harness (i.e. the real Go code) through this oracle: name, arguments ↦ answer *)
+Definition oracle_t := string -> list val -> val.
+(* dispatch table of one property: function name ↦ (oracle, arguments, observed output) ↦ verdict *)
+Definition entry := (string * (oracle_t -> list val -> val -> verdict))%type.
+Definition table := list entry.
+Definition run_table (t : table) (oracle : oracle_t) (fn : string) (args : list val) (obs : val) : verdict :=
+  match find (fun e => String.eqb (fst e) fn) t with
+  | Some (_, f) => f oracle args obs
+  | None => bad_case
+  end.
